@@ -25,14 +25,14 @@ claimed = {
    "Unbounded deductive proof: for every operation `reject` (INVALID arguments => error and the ghost transport trace unchanged) and `once` (every other argument tuple sends exactly one request); isWiegand26 and isCardNumberValid against the arithmetic Wiegand-26 predicate for all 2^32 card numbers and all format lists (loop invariant).",
    BASE_NOTE + "; fmt.Sprintf(%08v)/strconv.Atoi digit model"),
  "C09": ("other", "DESIGN.md section 4 C09",
-   "Partially decided (level 'other'): deductive proof of the socket / deadline / lock typestate of the three sequential driver methods ut0311.BroadcastTo, SendUDP, SendTCP against assumed contracts of package net on a ghost socket state: exactly one socket per call, closed on every return path; every blocking write/read happens under a deadline and the dial carries one; the process-wide lock is taken iff the bind port is fixed and released on every path; the receive loop exits only with an accepted datagram or a read error (never gives up early by itself). The wall-clock bound, goroutine termination and ut0311.Broadcast / Listen are NOT decided.",
-   BASE_NOTE + "; net and sync.Mutex calls are assumed events on a ghost typestate; codec.Dump trusted"),
+   "Partially decided (level 'other'): deductive proof of the socket / deadline / lock typestate of all four driver send paths - ut0311.BroadcastTo, SendUDP, SendTCP and the discovery broadcast ut0311.Broadcast - against assumed contracts of package net on a ghost socket state: exactly one socket per call, closed on every return path; every blocking write/read happens under a deadline (discovery: the write under a write deadline, the collector's reads bounded by the Close on return) and the dial carries one; the process-wide lock is taken iff the bind port is fixed and released on every path; the receive loops exit only with an accepted datagram or a read error and have a variant (a round that neither returns nor consumes a datagram fails it); discovery starts exactly one collector goroutine (none for set-address) and holds the caller for exactly the configured timeout (ghost clock: time.Sleep or a receive from time.After); the collector is a goroutine body that has to end with its call: loop variant, and no channel operation that can block for ever (obligations of class `block`). The wall-clock bound as such, goroutine counts over a history of calls and ut0311.Listen's goroutines are NOT decided.",
+   BASE_NOTE + "; net, time.Sleep and sync.Mutex calls are assumed events on a ghost typestate; finitely many datagrams reach a socket before its deadline or close (variant sock.pending); codec.Dump trusted"),
  "C10": ("other", "DESIGN.md section 4 C10",
-   "Partially decided (level 'other'): deductive proof per datagram and per event - the receive handler turns every byte string into exactly one of (a) one freshly decoded event sent on the pipe, only for a 64-byte datagram with protocol id 0x17/0x19, function code 0x20, non-zero serial and in-domain fields, every event field being the protocol decoding of the datagram, or (b) exactly one OnError callback; the dispatch goroutine calls OnEvent exactly once per received event with a status whose every field is the mapping of that event (event present iff index != 0, system date and time combined with their civil fields, door maps allocated per event) and never OnError/OnConnected; the receive loop of ut0311.Listen uses a buffer that cannot truncate an over-length datagram into a message; listen() calls OnConnected exactly once after the driver started listening and returns nil. Exactly-once / in-order delivery across the goroutines and shutdown ordering are NOT decided.",
-   BASE_NOTE + "; Listener callbacks, channel sends and receives are ghost events; driver.Listen assumed"),
+   "Partially decided (level 'other'): deductive proof per datagram and per event - the receive handler turns every byte string into exactly one of (a) one freshly decoded event sent on the pipe, only for a 64-byte datagram with protocol id 0x17/0x19, function code 0x20, non-zero serial and in-domain fields, every event field being the protocol decoding of the datagram, or (b) exactly one OnError callback; the dispatch goroutine calls OnEvent exactly once per received event with a status whose every field is the mapping of that event (event present iff index != 0, system date and time combined with their civil fields, door maps allocated per event) and never OnError/OnConnected; listen() calls OnConnected exactly once after the driver's Listen succeeded. The driver's Listen refuses port 0, opens exactly one UDP socket bound to the listen address and starts exactly two goroutines (nothing on failure); the stop protocol's events are decided per function: listen() closes the signal channel exactly once, the signal waiter closes the socket exactly once, the receive loop (one buffer able to hold an over-length datagram, one callback per datagram) closes `done` exactly once when it ends. Exactly-once / in-order delivery ACROSS goroutines, the ORDER of shutdown events between goroutines and immediate re-binding are NOT decided (interleavings).",
+   BASE_NOTE + "; Listener callbacks, channel sends, receives and closes are ghost events; driver.Listen is an interface contract at the API level, its implementation is verified against its own contract"),
  "C11": ("other", "DESIGN.md section 4 C11",
-   "Partially decided (level 'other'): GetDevices verified with broadcast() and the codec executed in place (loop invariants in both loops): exactly one discovery request with the protocol bytes goes to driver.Broadcast at the configured broadcast address (255.255.255.255:60000 by default); malformed datagrams never make the call fail (it fails only when the driver fails); at most one entry per datagram; every entry's address is completed with the broadcast port (60000 by default) and carries the name of the matching configured controller; no panic (type assertion included); the reply collector of ut0311.Broadcast keeps every datagram in a buffer of its own (pairwise distinct). That each entry is the decoding of its own reply, in arrival order with duplicates, is NOT decided.",
-   BASE_NOTE + "; driver.Broadcast assumed at the API level (the collector goroutine body is verified on its own, its interleaving with the caller is not)"),
+   "Partially decided (level 'other'): GetDevices verified with broadcast() and the codec executed in place (loop invariants in both loops): exactly one discovery request with the protocol bytes goes to driver.Broadcast at the configured broadcast address (255.255.255.255:60000 by default); malformed datagrams never make the call fail (it fails only when the driver fails); EXACTNESS over the datagrams logged in arrival order: the result has exactly one entry for each datagram that decodes as a get-device reply (disc.count, defined by recursion) - nothing for a malformed one, and a malformed one hides nothing after it - and entry k carries the serial number, firmware version and date decoded from the k-th such datagram (disc.sel): its own reply, in arrival order, duplicates included; every entry's address is completed with the broadcast port (60000 by default) and carries the name of the matching configured controller; no panic (type assertion included); the reply collector of ut0311.Broadcast keeps every datagram in a buffer of its own (pairwise distinct). The per-entry ADDRESS bytes (IP, mask, gateway, MAC) are not decided at this level (they are for a single reply, C02/C05).",
+   BASE_NOTE + "; driver.Broadcast assumed at the API level: what it returns is logged as the datagrams of the call and is allocated memory (the collector goroutine body and ut0311.Broadcast are verified on their own, C09; their interleaving with the caller is not)"),
  "C12": ("proof", "DESIGN.md section 4 C12",
    "Unbounded deductive proof: bcd.Encode and bcd.Decode are verified against full functional contracts with loop invariants (all strings over the full byte alphabet incl. multi-byte UTF-8, all byte slices), and the two round-trip statements are lemma functions verified modularly against those contracts.",
    BASE_NOTE + "; UTF-8 range step, strings.Builder ghost model, fmt.Errorf != nil"),
@@ -44,14 +44,14 @@ claimed = {
    "Unbounded deductive proof of the absence of run-time panics: every index, slice-bounds, nil-dereference, nil-map write, type-assertion, division, explicit-panic and library-precondition obligation of (a) the 31 API operations with sendto and the reflective codec inlined (reply bytes and their length symbolic), (b) Unmarshal of an arbitrary byte string into each of the 65 message types (lemmaDecode<T>), (c) every other source function of the five packages in a zero-annotation sweep (String/MarshalJSON methods included) - except the functions listed with reasons under sweep_not_covered in the evidence (goroutines, real sockets, reflection on unknown types).",
    BASE_NOTE + "; a method is called on a non-nil receiver; library functions do not panic when their assumed preconditions hold; Must* constructors panic by design"),
  "C05": ("proof", "DESIGN.md section 4 C05",
-   "Unbounded deductive proof per message type: for each of the 65 message structs T the lemma function lemmaRoundTrip<T>(v) = Unmarshal(Marshal(v)) is verified with the reflective codec executed on its real body - decoding succeeds for every in-domain v and returns its integer, boolean, PIN, HH:mm, IPv4, address:port, MAC and version fields unchanged, date/time fields are written and read at the same offset in the same BCD form; lemmaDecode<T> shows that only 64 bytes with T's protocol id and function code are accepted; the per-type round trips of Date, DateTime, HHmm, PIN, SerialNumber, Version are lemma functions over the codec contracts with an uninterpreted zone offset (every time zone; zero values included).",
-   BASE_NOTE + "; the dispatchers UnmarshalRequest/UnmarshalResponse and independence from non-field bytes are not decided (see evidence not_decided)"),
+   "Unbounded deductive proof per message type: for each of the 65 message structs T the lemma function lemmaRoundTrip<T>(v) = Unmarshal(Marshal(v)) is verified with the reflective codec executed on its real body - decoding succeeds for every in-domain v and returns its integer, boolean, PIN, HH:mm, IPv4, address:port, MAC and version fields unchanged, date/time fields are written and read at the same offset in the same BCD form; lemmaDecode<T> shows that only 64 bytes with T's protocol id and function code are accepted; the two dispatchers UnmarshalRequest / UnmarshalResponse are verified by a case split over the literal keys of their tables, the decoder call of each case summarised by the contract of lemmaDecode<T> (checked to be literally that call on a zero T): 64 bytes, protocol id 0x17, the type whose own MsgType tag carries the function code and only that type, unknown codes rejected; the per-type round trips of Date, DateTime, HHmm, PIN, SerialNumber, Version are lemma functions over the codec contracts with an uninterpreted zone offset (every time zone; zero values included).",
+   BASE_NOTE + "; independence from non-field bytes is not stated as a separate lemma (see evidence not_decided)"),
  "C13": ("proof", "DESIGN.md section 4 C13",
    "Unbounded deductive proof relative to a model of package time in which the zone offset is an uninterpreted function (all zones at once): every date producer (ToDate, ParseDate, the wire decoders of Date, DateTime, SystemDate, SystemTime) has a `civil` postcondition - if the civil day / date-time exists in the process-local zone the result has exactly the requested fields - and the encoders write exactly the civil fields. On the current tree the date clauses are provable only under the additional hypothesis that local midnight exists on that day: the missing-midnight case is a genuine defect recorded as four known findings (known_findings.txt), each replayed on the real code.",
    BASE_NOTE + "; the time model (spec/time.spec: time.Date algorithm abs = C - off(C - off(C)), documented guarantee when the civil time exists, calendar bijection) is assumed; the status recombination closures are covered through the decoder contracts only"),
  "C14": ("other", "DESIGN.md section 4 C14",
-   "Partially decided (level 'other'): deductive proof for the leaf types whose parser is repository code over a string - HH:mm (String / HHmmFromString / JSON: accepted exactly in 00:00..24:00 with minutes <= 59, everything else of that form rejected, decode(encode(v)) == v), door control state JSON (exactly the three names), Date JSON and text (blank <-> zero, impossible dates rejected, civil value kept when the day exists in the zone), and the text forms of the four address types (with C15). Card, TimeProfile, Task, Weekdays, Segments, DateTime, Version, MacAddress, TaskType by name, CardFormat and PIN are NOT decided: their decoders delegate to encoding/json's reflective decoding, fmt.Sscanf, net.ParseMAC or variable-width text, for which the engine has no contract.",
-   BASE_NOTE + "; encoding/json on strings is an abstract quoting; two known findings (dates whose local midnight does not exist, same defect as C13)"),
+   "Partially decided (level 'other'): deductive proof for the leaf types whose parser is repository code over a string - HH:mm (String / HHmmFromString / JSON: accepted exactly in 00:00..24:00 with minutes <= 59, everything else of that form rejected, decode(encode(v)) == v), door control state JSON (exactly the three names), Date JSON and text (blank <-> zero, impossible dates rejected, civil value kept when the day exists in the zone), DateTime JSON (decode(encode(v)) is the same instant to the second for every v held in the process zone or in UTC, in every process zone - over an assumed model of zone designations in time.Format / time.Parse, bounded conformance test in the thorough tier), Weekdays and Segments JSON decoding into a nil map (no panic, a map is created), and the text forms of the four address types (with C15). Card, TimeProfile, Task (values), Version, MacAddress, TaskType by name, CardFormat and PIN are NOT decided: their decoders delegate to encoding/json's reflective decoding, fmt.Sscanf, net.ParseMAC or variable-width decimal text.",
+   BASE_NOTE + "; encoding/json on strings is an abstract quoting; zone designations: spec/time.spec; two known findings (dates whose local midnight does not exist, same defect as C13); two defects fixed (DateTime JSON in zones with numeric designations, nil-map decoders)"),
  "C15": ("proof", "DESIGN.md section 4 C15",
    "Unbounded deductive proof over abstract strings: the four parsers are verified against postconditions stated with the grammar predicates isQuadPort / isQuad / hasQuad (accept with exactly that address and port under the role's port rule, default ports 0 / 60000 / 60000 / mandatory, reject when the rule is violated, reject strings without a dotted quad); Parse(String(a)) == a for accepted addresses is a lemma function per role verified from the parser contracts.",
    BASE_NOTE + "; assumed: what the two unanchored regular expressions and netip.ParseAddrPort/ParseAddr do on strings of the exact dotted-quad[:port] form and on strings without a dotted quad (axioms in spec/addr.spec); strings with text around a dotted quad are not decided"),
